@@ -278,6 +278,12 @@ def tlc_trace(ctx, module, cfg, trace_path, timeout=600, accept="postcondition")
             info["matched"] = int(mm.group(1))
             info["len"] = int(mm.group(2))
             info["state"] = mm.group(3) or ""
+            if info["state"].startswith('"'):
+                try:
+                    info["state_json"] = json.loads(_unescape_tla(info["state"][1:-1]))
+                    info["state"] = json.dumps(info["state_json"])
+                except ValueError:
+                    pass
         if "Model checking completed. No error has been found." in out:
             return True, info
         if mm and "Postcondition TraceAccepted" in out:
@@ -334,7 +340,8 @@ def validate_trace_file(ctx, module, cfg, path, start_prefix='{"e":"Cfg"', timeo
             at = info2["matched"]
             ev = run_lines[at] if at < len(run_lines) else "<end of trace>"
             rejected.append({"run": r, "lines": run_lines, "at": at, "event": ev,
-                             "state": info2.get("state", ""), "invariant": info2.get("invariant")})
+                             "state": info2.get("state", ""), "state_json": info2.get("state_json"),
+                             "invariant": info2.get("invariant")})
         else:
             log("[trace] run %d of %s rejected in context but accepted alone - not reported" % (r, path))
         pos_run = r + 1
